@@ -16,7 +16,7 @@
    callee must not be None).  The equality theorems prove that EAlias never occurs.
    No proofs in this file. *)
 From Coq Require Import ZArith List Bool String.
-From OV Require Import Model.Deps.
+From OV Require Import Model.Deps Model.RegRec.
 Import ListNotations.
 
 (* ---------------------------------------------------------------- attributes and classes that may be named in the source *)
@@ -304,6 +304,29 @@ Definition emb_line {T} (l : line (T:=T)) : pv :=
 Definition emb_dflag (f : dflag) : pv :=
   match f with FPlain => VList [] | FPIndexed => VList [VStr "p_indexed"] | FStoreLoad => VList [VStr "storeload_dep"] end.
 Definition emb_report {T} (p : line (T:=T) * dflag) : pv := VTuple [emb_line (fst p); emb_dflag (snd p)].
+
+(* ---------------------------------------------------------------- the register alias test as a function on values *)
+(* parser.is_reg_dependend_of is property C12's subject: tools/gen_c12.py translates it to a typed function on the record
+   `reg` (name, prefix; Model/RegRec.v).  `pdep_of f` applies such a function to RegisterOperand values.  Handed a FlagOperand
+   as first argument (find_depending asks is_read / is_written about flag destinations too) it answers False: flag names
+   are not register names -- the assumption the hand model makes in `reg_vs_reg`. *)
+Definition reg_view (x : pv) : option reg :=
+  match x with
+  | VObj C_RegisterOperand fs =>
+    match attr_assoc fs A_name, attr_assoc fs A_prefix with
+    | Some (VStr n), Some VNone => Some (mkreg n EmptyString)
+    | Some (VStr n), Some (VStr p) => Some (mkreg n p)
+    | _, _ => None
+    end
+  | _ => None
+  end.
+Definition pdep_of (f : reg -> reg -> bool) (a b : pv) : dres pv :=
+  match a with
+  | VObj C_FlagOperand _ => match reg_view b with Some _ => DOk (VBool false) | None => DErr EUnmodelled end
+  | _ => match reg_view a, reg_view b with Some ra, Some rb => DOk (VBool (f ra rb)) | _, _ => DErr EUnmodelled end
+  end.
+Definition dep_of (f : reg -> reg -> bool) (a b : regop) : bool :=
+  f (mkreg (r_name a) (r_prefix a)) (mkreg (r_name b) (r_prefix b)).
 
 (* ---------------------------------------------------------------- structural equality on values (correspondence shards) *)
 Fixpoint pv_eqb (x y : pv) {struct x} : bool :=
